@@ -314,3 +314,26 @@ def c15(ctx):
     ctx.design("Lease", "MC_Lease_quick.cfg")
     beh = ctx.generate("Lease", "MC_Lease_gen.cfg", num=1500 if q else 30000, depth=16)
     ctx.gv("tlc-schedules", "Trace_Lease", ["lease"], inputs=beh)
+
+
+@check("C14")
+def c14(ctx):
+    ctx.assumptions += ["two table.Manager instances share one real NodeHost and one real kv.RaftStore (a local metadata read after an acknowledged write is current); metadata-shard replica lag is not part of this check",
+                        "store calls are released one at a time in the order of a TLC-generated schedule (gated store wrapper); shards really start and data goes through Raft and Pebble on an in-memory FS"]
+    q = ctx.quick
+    ctx.design("Catalog", "MC_Catalog_quick.cfg" if q else "MC_Catalog_thorough.cfg")
+    beh = ctx.generate("Catalog", "MC_Catalog_gen.cfg", num=160 if q else 2500, depth=40)
+    ctx.gv("tlc-schedules", "Trace_Catalog", ["catalog", "--seed", str(seed())], inputs=beh)
+
+
+@check("C19")
+def c19(ctx):
+    ctx.assumptions += ["updates come from a Raft-consistent universe: one leader per term, one membership per config-change index (the universe the property is stated for)",
+                        "the memberlist transport is not exercised: gossip = the delegate's real LocalState / MergeRemoteState JSON exchange called directly"]
+    q = ctx.quick
+    ctx.design("MC_ShardView", "MC_ShardView_quick.cfg" if q else "MC_ShardView_thorough.cfg")
+    beh = ctx.generate("MC_ShardView", "MC_ShardView_gen.cfg", num=600 if q else 10000, depth=8)
+    if not ctx.gv("tlc-deliveries", "Trace_ShardView", ["shardview", "--seed", str(seed())], inputs=beh):
+        return
+    n, ops = (60, 30) if q else (800, 60)
+    ctx.gv("random-deliveries", "Trace_ShardView", ["shardview", "--seed", str(seed()), "--n", str(n), "--ops", str(ops)])
